@@ -5,3 +5,13 @@ import PorepyVerif.C16.Props
 #print axioms PorepyVerif.C16.tpsa_translation_face_fluxes
 #print axioms PorepyVerif.C16.tpsa_translation_solves
 #print axioms PorepyVerif.C16.tpsa_translation_unique
+#print axioms PorepyVerif.C16.nonsingular_one_cell_dirichlet
+#print axioms PorepyVerif.C16.tpsa_translation_unique_one_cell
+#print axioms PorepyVerif.C16.nonsingular_grid21
+#print axioms PorepyVerif.C16.strip_null_mode
+#print axioms PorepyVerif.C16.strip_singular_1
+#print axioms PorepyVerif.C16.strip_singular_3
+#print axioms PorepyVerif.C16.tpsa_robin_stress
+#print axioms PorepyVerif.C16.tpsa_robin_zero_stress_iff
+#print axioms PorepyVerif.C16.tpsa_robin_face_disp
+#print axioms PorepyVerif.C16.robin_not_translation_consistent
